@@ -138,6 +138,13 @@ func (e *Env) expr(x ast.Expr) Val {
 		c.unsupp("spec: unbound identifier %s", n.Name)
 		return Val{t: c.declConst("unbound_"+n.Name, c.sortOf(e.typeOf(n))), typ: e.typeOf(n)}
 	case *ast.UnaryExpr:
+		if n.Op == token.AND {
+			if id, ok := n.X.(*ast.Ident); ok {
+				if r, ok := e.vars["&"+id.Name]; ok {
+					return r
+				}
+			}
+		}
 		v := e.expr(n.X)
 		t := e.typeOf(n)
 		switch n.Op {
@@ -150,6 +157,13 @@ func (e *Env) expr(x ast.Expr) Val {
 			return Val{t: sx("fp.neg", v.t), typ: t}
 		case token.ADD:
 			return v
+		case token.AND:
+			// address of an address-taken local: its cell reference
+			if id, ok := n.X.(*ast.Ident); ok {
+				if r, ok := e.vars["&"+id.Name]; ok {
+					return r
+				}
+			}
 		case token.XOR:
 			k, _ := typeIntKind(t)
 			return Val{t: c.it.bnot(k, v.t), typ: t}
@@ -818,6 +832,12 @@ func (e *Env) prelude(name string, n *ast.CallExpr, typeArgs []types.Type, rt ty
 				return Val{t: fmt.Sprintf("(forall ((%s Int)) (=> (< %s %s) (= (select %s %s) (select %s %s))))", r, r, tr.allocTerm(e.old), cur, r, old, r), typ: B}
 			}
 		}
+	case "bufLen":
+		ln, _ := tr.bufKeys()
+		return Val{t: sx("select", tr.memGet(e.st, ln), arg(0).t), typ: rt}
+	case "bufAt":
+		_, data := tr.bufKeys()
+		return Val{t: sx("select", sx("select", tr.memGet(e.st, data), arg(0).t), e.intIndex(n.Args[1])), typ: rt}
 	case "callArg":
 		if tv, ok := e.info.Types[n.Args[0]]; ok && tv.Value != nil {
 			if k, ok := constant.Int64Val(tv.Value); ok && int(k) < len(e.callArgs) {
@@ -943,6 +963,7 @@ func (f *Frame) nameEnv(b *ssa.BasicBlock, upto ssa.Instruction, st *State) *Env
 				}
 				if v, ok := f.vals[x.X]; ok {
 					if x.IsAddr {
+						vars["&"+id.Name] = v
 						vars[id.Name] = tr.load(st, tr.addrOf(v, x.X.Type()))
 					} else {
 						vars[id.Name] = v
@@ -985,6 +1006,7 @@ func (f *Frame) loopEnv(header *ssa.BasicBlock, phiVals map[*ssa.Phi]Val, st *St
 						a := tr.addrOf(v, dr.X.Type())
 						lv := tr.load(st, a)
 						vars[id.Name] = lv
+						vars["&"+id.Name] = v
 					} else {
 						vars[id.Name] = v
 					}
